@@ -236,7 +236,7 @@ def e1_obligations(rep: Report, ctx: Ctx, select, rule_prefix=''):
 
 # Records and obligations of *other* properties that are necessary conditions of a property as well (DESIGN 11.12): a
 # change is usually tried against the check of the property it was written for.
-C06_FROM_C05 = ('day of year accepted exactly', '12-hour value with meridian', 'AM, PM and an absent meridian are all accepted',
+C06_FROM_C05 = ('the meridian text is matched in the spelling of the picture', 'day of year accepted exactly', '12-hour value with meridian', 'AM, PM and an absent meridian are all accepted',
                 'a weekday field is checked against the date', 'the weekday field is checked against the date that is returned',
                 'a 12-hour value outside 1..=12 is rejected', 'with a month field the day comes from the day of the year',
                 'with a day field the month comes from the day of the year')
@@ -248,7 +248,7 @@ ALSO = {
     # the three date-like types satisfy the same characterisation of truncation / rounding / last day / month arithmetic
     'C17': lambda c, r: c['prop'] == 'C09' or (c['prop'] in ('C10', 'C11') and ('timestamp::Timestamp' in r['root'] or 'oracle::Date' in r['root'])),
     # a run of blanks is rendered with its length: the lexer's blank rules
-    'C04': lambda c, r: (c['prop'] == 'C19' and ('blank' in c['clause'].lower() or 'style' in c['clause'].lower()))
+    'C04': lambda c, r: (c['prop'] == 'C19' and any(x in c['clause'] for x in ('lank', 'style', 'MonthName', 'DayName', 'AmPm')))
     or (c['prop'] == 'C01' and c['root'] == 'common::the_day_of_year'),
     # the text channel of the decoder ends in the parser's assembly step
     'C15': lambda c, r: c['prop'] == 'C05' and 'TryFrom<format::NaiveDateTime>' in r['root'],
